@@ -56,12 +56,12 @@ def run(ctx):
     if ctx.tier == "quick":
         qjobs = wmmlib.bounded_jobs(qexe, ["u8"], [8, 16], [5, 50, 100], [0, 1], 3)
         qjobs += wmmlib.bounded_jobs(qexe, ["u8"], [32, 64], [5, 25], [0], 2)
-        qjobs += wmmlib.unbounded_jobs(qexe, [(8, 16), (8, 32)], 2, deadline=300)
-        qjobs += wmmlib.unbounded_jobs(qexe, [(8, 24)], 2, deadline=300)
+        qjobs += wmmlib.unbounded_jobs(qexe, [(8, 16), (8, 32)], 2)
+        qjobs += wmmlib.unbounded_jobs(qexe, [(8, 24)], 2)
     else:
-        qjobs = wmmlib.bounded_jobs(qexe, ["u8", "u16", "u64"], [8, 16, 32, 64], [0, 5, 25, 50, 100], [0, 1], 3)
-        qjobs += wmmlib.unbounded_jobs(qexe, [(8, 16), (8, 32), (16, 64)], 3, deadline=900)
-        qjobs += wmmlib.unbounded_jobs(qexe, [(8, 24), (16, 48)], 3, deadline=900)
+        qjobs = wmmlib.bounded_jobs(qexe, ["u8", "u16", "u64"], [8, 16, 32, 64], [0, 5, 25, 50, 100], [0, 1], 3, deadline=900, budget=2400)
+        qjobs += wmmlib.unbounded_jobs(qexe, [(8, 16), (8, 32), (16, 64)], 3, deadline=900, budget=2400)
+        qjobs += wmmlib.unbounded_jobs(qexe, [(8, 24), (16, 48)], 3, deadline=900, budget=2400)
     nviol_before = len(ctx.violations)
     for rr in vf.run_many(qjobs):
         ctx.absorb(rr, "h_queues(c09)")
